@@ -16,6 +16,7 @@ import (
 	"net"
 	"runtime"
 	"sync"
+	"sync/atomic"
 	"testing"
 	"time"
 
@@ -23,6 +24,8 @@ import (
 	replicationv1 "go.temporal.io/server/api/replication/v1"
 	"go.temporal.io/server/client/history"
 	"go.temporal.io/server/common/channel"
+	"go.temporal.io/server/common/log/tag"
+	"go.temporal.io/server/common/log"
 	"google.golang.org/grpc"
 	"google.golang.org/grpc/credentials/insecure"
 	"pgregory.net/rapid"
@@ -45,6 +48,35 @@ func init() {
 		}
 	}()
 }
+
+// c08rMetClosed is set when the intra-proxy receiver logs that its hand-over met a closed channel.
+var c08rMetClosed atomic.Bool
+
+type c08rFlagLogger struct{}
+
+func (c08rFlagLogger) hit(msg string) {
+	if msg == "Failed to send to local target shard (channel closed)" {
+		c08rMetClosed.Store(true)
+	}
+}
+func (l c08rFlagLogger) Debug(msg string, _ ...tag.Tag)  { l.hit(msg) }
+func (l c08rFlagLogger) Info(msg string, _ ...tag.Tag)   { l.hit(msg) }
+func (l c08rFlagLogger) Warn(msg string, _ ...tag.Tag)   { l.hit(msg) }
+func (l c08rFlagLogger) Error(msg string, _ ...tag.Tag)  { l.hit(msg) }
+func (l c08rFlagLogger) DPanic(msg string, _ ...tag.Tag) { l.hit(msg) }
+func (l c08rFlagLogger) Panic(msg string, _ ...tag.Tag)  { l.hit(msg) }
+func (l c08rFlagLogger) Fatal(msg string, _ ...tag.Tag)  { l.hit(msg) }
+
+// c08rProvider hands the flag logger to the shard-routing component (the intra-proxy receiver logs through it).
+type c08rProvider struct{}
+
+func (c08rProvider) Get(c logging.LogComponentName) log.Logger {
+	if c == logging.ShardRouting {
+		return c08rFlagLogger{}
+	}
+	return vfNoop()
+}
+func (p c08rProvider) With(...tag.Tag) logging.LoggerProvider { return p }
 
 type c08rOp struct {
 	K string `json:"k"` // remoteOff | remoteOn | reconcile | chanOn | chanOff | chanClose | peerSend | peerEnd | advance
@@ -155,7 +187,7 @@ func (p *c08rPeer) live() []*c08rPeerStream {
 func c08rRun(t *testing.T, c c08rCase) (viol string, classes map[string]bool) {
 	classes = map[string]bool{}
 	leak, p := vfBubble(t, func() {
-		lp := logging.NewLoggerProvider(vfNoop(), config.NewMockConfigProvider(config.S2SProxyConfig{}))
+		var lp logging.LoggerProvider = c08rProvider{}
 		mc := &config.MemberlistConfig{Enabled: true, NodeName: "node-a", ProxyAddresses: map[string]string{"node-b": "127.0.0.1:1"}}
 		sm := NewShardManager(mc, config.ShardCountConfig{Mode: config.ShardCountRouting, LocalShardCount: 2, RemoteShardCount: 2}, encryption.TLSConfig{}, lp).(*shardManagerImpl)
 		sm.SetupCallbacks()
@@ -243,11 +275,26 @@ func c08rRun(t *testing.T, c c08rCase) (viol string, classes map[string]bool) {
 			close(localCh)
 			localClosed = true
 			classes["local_target_sender_closed_its_channel_but_is_still_registered"] = true
-			// ... and deregisters it a moment later - of real time: a receiver that meets the closed channel meanwhile
-			// retries without ever blocking, which virtual time cannot pass, so the window cannot be closed from inside
+		}
+		// windowEnd: the dying sender deregisters its closed channel (no message arrived meanwhile)
+		windowEnd := func() {
+			if !localClosed {
+				return
+			}
+			sm.RemoveRemoteSendChan(local, localCh)
+			localCh, localClosed = nil, false
+		}
+		// windowEndAfterMessage: a message is on its way to the closed, still registered channel. The receiver that
+		// meets it retries without ever blocking, which virtual time cannot pass, so the deregistration has to come
+		// from outside the bubble, in real time: as soon as the receiver has logged its first failed hand-over (or
+		// after 5 s without one - the message never got that far).
+		windowEndAfterMessage := func() {
 			ch := localCh
+			c08rMetClosed.Store(false)
 			vfOutsideCh <- func() {
-				time.Sleep(30 * time.Millisecond)
+				for i := 0; i < 5000 && !c08rMetClosed.Load(); i++ {
+					time.Sleep(time.Millisecond)
+				}
 				// what RemoveRemoteSendChan does, minus its log statement (the logger holds timers that belong to the
 				// bubble and must not be touched from outside)
 				sm.remoteSendChannelsMu.Lock()
@@ -256,17 +303,14 @@ func c08rRun(t *testing.T, c c08rCase) (viol string, classes map[string]bool) {
 				}
 				sm.remoteSendChannelsMu.Unlock()
 			}
-		}
-		// windowEnd waits (in real time) until the dying sender has deregistered its closed channel
-		windowEnd := func() {
-			if !localClosed {
-				return
-			}
 			for {
-				if cur, ok := sm.GetRemoteSendChan(local); !ok || cur != localCh {
+				if cur, ok := sm.GetRemoteSendChan(local); !ok || cur != ch {
 					break
 				}
 				runtime.Gosched()
+			}
+			if c08rMetClosed.Load() {
+				classes["message_met_a_closed_but_still_registered_channel"] = true
 			}
 			localCh, localClosed = nil, false
 		}
@@ -310,9 +354,7 @@ func c08rRun(t *testing.T, c c08rCase) (viol string, classes map[string]bool) {
 					default:
 					}
 					if localClosed {
-						// sent within the window: the message is likely to meet the closed, still registered channel
-						windowEnd()
-						classes["message_sent_while_the_closed_channel_was_still_registered"] = true
+						windowEndAfterMessage()
 					}
 					vfQuiesce()
 					if localCh == nil {
